@@ -568,6 +568,14 @@ pub fn driver_main(id: &str, tier: Tier) -> i32 {
     let workers: u64 = std::env::var("VERIF_WORKERS").ok().and_then(|s| s.parse().ok()).unwrap_or_else(|| std::thread::available_parallelism().map(|n| n.get() as u64).unwrap_or(4));
     println!("VERIF_SEED={} check={} tier={} workers={}", seed, id, tier.name(), workers);
     let t0 = Instant::now();
+    if id == "C17" {
+        // the clock and entropy seams must really be in std's path, or the scenario proves nothing
+        if let Err(e) = crate::hooks::self_test() {
+            eprintln!("HARNESS ERROR: {}", e);
+            return 2;
+        }
+        println!("seam self-test: SystemTime::now() follows the simulated clock; RandomState follows the per-thread entropy seed");
+    }
     let findings = load_findings();
     crate::exec::install_panic_hook();
 
@@ -616,13 +624,19 @@ pub fn driver_main(id: &str, tier: Tier) -> i32 {
     let a: BTreeMap<(String, u64), u64> = merged.rep.trace_hashes.iter().map(|(s, i, h)| ((s.clone(), *i), *h)).collect();
     let b: BTreeMap<(String, u64), u64> = det.rep.trace_hashes.iter().map(|(s, i, h)| ((s.clone(), *i), *h)).collect();
     let mut det_pairs = 0u64;
+    let mut irreproducible: Option<(String, u64)> = None;
     for (k, h) in &a {
         if let Some(h2) = b.get(k) {
             det_pairs += 1;
-            if h != h2 {
-                eprintln!("HARNESS ERROR: nondeterminism: event-log hash of run {:?} differs between two executions ({:x} vs {:x})", k, h, h2);
-                return 2;
+            if h != h2 && irreproducible.is_none() {
+                irreproducible = Some(k.clone());
             }
+        }
+    }
+    if let Some((sc, run)) = &irreproducible {
+        if id != "C17" {
+            eprintln!("HARNESS ERROR: nondeterminism: the event log of run {} of scenario {} differs between two executions of the same seed (in different processes); if the simulator is deterministic, the library's output depends on process-global state, which is property C17's subject", run, sc);
+            return 2;
         }
     }
 
@@ -634,6 +648,21 @@ pub fn driver_main(id: &str, tier: Tier) -> i32 {
         } else {
             new_violations.push(v.clone());
         }
+    }
+    if let Some((sc, run)) = irreproducible {
+        // for C17 this is the property itself: the same call sequences, repeated in another process, gave other results
+        let mut rng = Rng::for_run(seed, &format!("{}:{}", def.id, sc), run);
+        let case = (def.gen)(&sc, &mut rng, tier, run);
+        new_violations.push(VRec {
+            scenario: sc.clone(),
+            run,
+            property: id.to_string(),
+            class: format!("{}/run-not-reproducible", id),
+            key: sc.clone(),
+            detail: format!("run {} of scenario {} produced a different event log (return values / output bytes) when the identical call sequences were repeated in another process", run, sc),
+            case: serde_json::to_value(&case).unwrap(),
+            count: 1,
+        });
     }
     // process deaths / hangs: one report per kind, for the smallest run; confirmed alone in a fresh process
     let mut by_kind: BTreeMap<String, (String, u64, String, u64)> = BTreeMap::new();
@@ -691,7 +720,7 @@ pub fn driver_main(id: &str, tier: Tier) -> i32 {
     new_violations.sort_by(|a, b| (a.scenario.as_str(), a.run, a.class.as_str()).cmp(&(b.scenario.as_str(), b.run, b.class.as_str())));
     let mut violation_lines = Vec::new();
     for v in new_violations.iter().take(12) {
-        let (mv, minimised, orig) = if v.class.ends_with("process-death-or-hang") { (v.clone(), false, 0) } else { minimise(def, v, tier) };
+        let (mv, minimised, orig) = if v.class.ends_with("process-death-or-hang") || v.class.ends_with("run-not-reproducible") { (v.clone(), false, 0) } else { minimise(def, v, tier) };
         let p = write_replay(def, seed, &mv, minimised, orig);
         println!("violation class={} key={} seed={} scenario={} run={} (seen {}x): {}", mv.class, mv.key, seed, mv.scenario, mv.run, v.count, mv.detail);
         let line = format!("VIOLATION property={} replay={}", id, p.display());
